@@ -21,7 +21,9 @@ for f in sorted(glob.glob(sys.argv[1]+"/*.json"))[:2]:
     print("  replay:", json.dumps(fi)[:400] if fi else "no-failing-input-found; broken: %s" % (r.get("broken_obligations") or [d.get("instance") for d in r.get("disagreements",[])][:3]))
 PY
 fi
+FOUND=$(grep -c "VIOLATION" "$W/out.txt"); NOIN=$(grep -c "no-failing-input-found" "$W/out.txt")
 echo "seeded=$ID property=$PROP exit=$RC"
+echo "{\"seeded\": \"$ID\", \"property\": \"$PROP\", \"tier\": \"$TIER\", \"exit\": $RC, \"violation_lines\": $FOUND, \"no_failing_input_found_lines\": $NOIN, \"verif_commit\": \"$(git -C "$HERE" rev-parse --short HEAD)\", \"repo_commit\": \"$(git -C /repo rev-parse --short HEAD)\"}" >> "$HERE/seeded/results.jsonl"
 rm -rf "$W"
 # regenerated tables were written from the mutated copy: restore the committed (clean-tree) versions
 git -C "$HERE" checkout -- lean/LitexModel/Generated 2>/dev/null
